@@ -3,6 +3,7 @@ import Kvass.Driver.K8s
 import Kvass.Driver.Sidecar
 import Kvass.Driver.Store
 import Kvass.Driver.Proxy
+import Kvass.Driver.Disc
 
 open Kvass.Driver
 
@@ -22,4 +23,5 @@ def main (args : List String) : IO UInt32 := do
   | ["sidecar"] => loop stdin Sidecar.handle; return 0
   | ["store"] => loop stdin Store.handle; return 0
   | ["proxy"] => loop stdin Proxy.handle; return 0
+  | ["disc"] => loop stdin Disc.handle; return 0
   | _ => IO.eprintln "usage: driver <engine>"; return 2
